@@ -377,9 +377,9 @@ func (l *loopState) onStageComplete(
 ) {
 	l.lock.Lock()
 	defer func() {
-		if previousStage != nil {
-			l.checkForDeadlocks(3, wg)
-		}
+		// Also check when no stage was completed: a step calls this without a previous stage to announce
+		// that it is now waiting for input, which is exactly when the workflow may have become stuck.
+		l.checkForDeadlocks(3, wg)
 		l.lock.Unlock()
 	}()
 
